@@ -352,7 +352,7 @@ pub fn run(opts: &RndOpts, tw: &mut TraceWriter) {
         let mut r = SmallRng::seed_from_u64(rseed);
         let codec = opts.codecs[run % opts.codecs.len()];
         let cfg = rand_cfg(&mut r, opts);
-        let pol = pick(&mut r, &[Policy::None, Policy::Next, Policy::Next, Policy::Same, Policy::Losing]);
+        let pol = pick(&mut r, &[Policy::None, Policy::Next, Policy::Next, Policy::Same, Policy::Losing, Policy::Cycle]);
         let handler = HandlerCfg {
             rel: pick(&mut r, &[InvRel::SameKey, InvRel::SameKey, InvRel::NewerOrEqual, InvRel::Never]),
             pred: pick(&mut r, &[Pred::All, Pred::All, Pred::EvenAddr, Pred::Nobody]),
